@@ -243,7 +243,8 @@ func (g *gen) cluster(name string, seed int64, class int) *Plan {
 		p.SnapCount = 2 + g.r.Intn(2)
 		p.BatchSize = 1
 		st = append(st, Step{Op: "pick", To: "follower"})
-		if g.r.Intn(2) == 0 {
+		held := g.r.Intn(2) == 0
+		if held {
 			// ... and its executor is held meanwhile: the snapshot arrives while blocks handed over earlier are still unexecuted
 			st = append(st, Step{Op: "policy", N: -1, Exec: "hold", Report: "hold"})
 		}
@@ -256,6 +257,10 @@ func (g *gen) cluster(name string, seed int64, class int) *Plan {
 			st = append(st, Step{Op: "waitTx", Txs: t, Opt: true})
 		}
 		st = append(st, Step{Op: "heal"})
+		if held {
+			// the executor stays held until the follower has been handed the blocks it missed (settle releases it)
+			st = append(st, Step{Op: "waitDeliver", H: len(t0) + k, Opt: true})
+		}
 	case 5: // the whole cluster stops and starts again
 		t0 := sub(1+g.r.Intn(3), targets[g.r.Intn(3)])
 		st = append(st, Step{Op: "waitTx", Txs: t0})
